@@ -269,6 +269,10 @@ void Server::Private::run()
         client._callback->onClosed();
       else
         deleteClient(client);
+      // onClosed may have created a timer that is due before the time-out computed above
+      timeout = _queuedTimers.begin().key() - now;
+      if (timeout < 0)
+        timeout = 0;
     }
 
     if (!_sockets.poll(pollEvent, timeout))
